@@ -120,6 +120,16 @@ claim("C20", "proof",
       "lengths up to INT_MAX/2.",
       "CBMC code contracts (DFCC): loop contracts with a ghost shadow automaton, enforced function contracts", "4/C20")
 
+claim("C15", "proof",
+      "The real PRNG functions are executed symbolically from an arbitrary generator state with a stubbed system source "
+      "(arbitrary bytes and health status), stubbed storage callbacks and specification stubs for the sponge: every "
+      "operation ends with four (zero-rate; permute) steps, fetch reseeds before squeezing exactly at the 16384-byte "
+      "limit, every status result is as documented (this found and led to the repair of defect D2), and init/feed equal "
+      "their reference compositions (deterministic in the system and fed bytes).",
+      "Plain-assertion groups over stubs; the real system source is not verified; 'influences all later output' only in "
+      "the sense that the byte is an argument of the state term; entry block positions sampled in the quick tier.",
+      "CBMC: harness-asserted postconditions over specification stubs, ghost call counters", "4/C15")
+
 NA_DEFAULT = {
     "C11": "secret-independence of control flow and addresses is a relational (2-safety) property of the shipped object code; a CBMC contract describes one execution of the C source and has no taint or relational mode (DESIGN section 6)",
     "C17": "compilability of C++ members is a compiler verdict, and CBMC's C++ front end rejects this repository's C++ (DESIGN 2.8, section 6)",
